@@ -11,3 +11,4 @@ for P in "$@"; do
   [ $RC -eq 2 ] && echo "$OUT" | tail -5
 done
 git -C /repo checkout -- .
+bin/build.sh asan >/dev/null 2>&1   # leave the build tree on the unchanged sources
